@@ -122,3 +122,12 @@ CHECKS["C16"] = dict(
         dict(pkg="server", name="C16_renamefail", bound="same history; the directory image of the remove-before-rename window produced without a crash (native twin of the recorded finding)", flags=["-witness", "1"], reach=[]),
     ],
 )
+
+CHECKS["C11"] = dict(
+    explanation="bounded symbolic execution of the ack branch of LockDB.Lock, AofChannel.Handle*, Aof.PushLock/lockAcked/loadLockAck, AofFile.WriteLock/Flush (file model), ReplicationManager.PushLock, ReplicationAckDB.ProcessLeader*, LockDB.DoAckLock/doTimeOut; event sequences chosen by forks",
+    assumptions=["followers are simulated by the acknowledgement frames they would send (Aof.loadLockAck); the follower connection itself is outside"],
+    harnesses=[
+        dict(pkg="server", name="C11_ack", bound="one ack-required LOCK (plus one queued ordinary request), 0..2 followers, ack mode all / majority, every sequence of <=4 events from {leader flush, follower ack ok, follower ack negative, UNLOCK same LockId, LOCK same LockId, ack wait times out}", flags=["-witness", "50"],
+             reach=["end", "succed", "nack", "ack-timeout", "unlock-waiting", "lock-waiting", "rolled-back"]),
+    ],
+)
